@@ -79,7 +79,8 @@ def describe(o):
 
 def param_value(rng, t):
     pool = {T_INT: [0, 1, 2, 3, -1, -3, 7], T_DEC: [gen.D('1.50'), gen.D('-1.5'), gen.D('0.001'), gen.D('2'), gen.D('100')],
-            T_STR: ['a', '', 'b', 'x1', '^a', 'A'], T_DATE: gen.LITS[T_DATE], T_BOOL: [True, False]}[t]
+            T_STR: ['a', '', 'b', 'x1', '^a', 'A', 'Cafe\u0301', '\u00e9', 'e\u0301', 'it\'s', 'tab\there'],      # (decomposed / precomposed accents are different strings)
+            T_DATE: gen.LITS[T_DATE], T_BOOL: [True, False]}[t]
     return rng.choice(pool)
 
 
